@@ -154,6 +154,9 @@ type fpeer struct {
 	stop chan struct{}
 	wg   sync.WaitGroup
 	dead atomic.Bool
+
+	askMu sync.Mutex
+	ask   *askCall // cancelshapes.go: the request the "ask" tool is to issue with its own request context
 }
 
 func idText(raw json.RawMessage) string {
@@ -394,6 +397,7 @@ func newFenv(r *vh.Run, kind kit.Kind) *fenv {
 		}
 		return mcp.NewTextResult("lent"), nil
 	})
+	e.registerAsk()
 	return e
 }
 
@@ -1321,6 +1325,7 @@ func failures(r *vh.Run, kind kit.Kind) {
 	e.ctxAlreadyDone(p, r.Pick(90, 1500))
 	e.duringWrite(p, r.Pick(3, 40))
 	e.whileWaiting(p, other, r.Pick(8, 120))
+	e.cancelShapes(p, r.Pick(1, 5))
 	e.badParams(p, r.Pick(3, 40))
 	e.unknownSession(p, r.Pick(3, 40))
 	e.storm(p, r.Pick(4, 8), r.Pick(40, 500))
